@@ -253,3 +253,55 @@ Proof.
   rewrite (rand_value_floor rf _ cur R0 R1 Hc Hr0).
   fold mn mx. rewrite <- Hfl. apply Qfloor_comp. field. lra.
 Qed.
+
+(** * RandomizationFactor outside [0,1] (nothing validates it) *)
+Lemma Qtrunc_between x : Qfloor x <= Qtrunc x <= Qceiling x.
+Proof.
+  destruct x as [a d]. unfold Qtrunc, Qceiling, Qfloor, Qopp. cbn [Qnum Qden].
+  destruct (Z.le_gt_cases 0 a) as [H|H].
+  - rewrite Z.quot_div_nonneg by lia. split; [lia|].
+    pose proof (Z_div_mod_eq_full a (Z.pos d)) as E1. pose proof (Z.mod_pos_bound a (Z.pos d) ltac:(lia)).
+    pose proof (Z_div_mod_eq_full (- a) (Z.pos d)) as E2. pose proof (Z.mod_pos_bound (- a) (Z.pos d) ltac:(lia)).
+    nia.
+  - assert (E : a ÷ Z.pos d = - (- a / Z.pos d)).
+    { rewrite <- (Z.quot_div_nonneg (- a)) by lia. rewrite Z.quot_opp_l by lia. lia. }
+    rewrite E. split; [|lia].
+    pose proof (Z_div_mod_eq_full a (Z.pos d)) as E1. pose proof (Z.mod_pos_bound a (Z.pos d) ltac:(lia)).
+    pose proof (Z_div_mod_eq_full (- a) (Z.pos d)) as E2. pose proof (Z.mod_pos_bound (- a) (Z.pos d) ltac:(lia)).
+    nia.
+Qed.
+
+(** for ANY factor rf >= 0 (also > 1) and interval cur >= 0 the value stays in
+    [floor(cur(1-rf)), ceil(cur(1+rf))]; for rf > 1 the lower end is negative: such a draw
+    simply does not delay (time.After of a negative duration fires at once) *)
+Lemma rand_value_bounds_any_rf (rf rnd : Q) (cur : Z) :
+  (0 <= rf)%Q -> 0 <= cur -> (0 <= rnd)%Q -> (rnd < 1)%Q ->
+  delay_lo rf cur <= rand_value rf rnd cur <= delay_hi rf cur.
+Proof.
+  intros R0 Hc H0 H1. unfold rand_value, delay_lo, delay_hi, rv_min, rv_max.
+  pose proof (inj_cur_nonneg cur Hc) as Hq.
+  assert (Hp : (0 <= rf * inject_Z cur)%Q) by (apply Qmult_le_0_compat; assumption).
+  set (p := (rf * inject_Z cur)%Q) in *. set (q := inject_Z cur) in *.
+  set (x := (q - p + rnd * (q + p - (q - p) + 1))%Q).
+  assert (Hw : (0 <= rnd * (2 * p + 1))%Q) by (apply Qmult_le_0_compat; lra).
+  assert (Hv : (0 < (1 - rnd) * (2 * p + 1))%Q) by (apply Qmult_lt_0_compat; lra).
+  assert (X1 : (q - p <= x)%Q) by (unfold x; lra).
+  assert (X2 : (x < q + p + 1)%Q) by (unfold x; lra).
+  pose proof (Qtrunc_between x) as [T1 T2].
+  split.
+  - pose proof (Qfloor_resp_le _ _ X1). lia.
+  - destruct (Qlt_le_dec x 0) as [N|N].
+    + (* negative draw: trunc <= 0 <= ceil(max) *)
+      assert (Qceiling x <= 0).
+      { pose proof (Qceiling_resp_le x 0 (Qlt_le_weak _ _ N)) as C. change 0%Q with (inject_Z 0) in C.
+        rewrite Qceiling_Z in C. exact C. }
+      assert (0 <= Qceiling (q + p)).
+      { assert (0 <= q + p)%Q as P by lra. pose proof (Qceiling_resp_le _ _ P) as C.
+        change 0%Q with (inject_Z 0) in C. rewrite Qceiling_Z in C. exact C. }
+      lia.
+    + rewrite Qtrunc_floor by exact N.
+      pose proof (Qfloor_le x) as A. pose proof (Qle_ceiling (q + p)) as C.
+      assert (inject_Z (Qfloor x) < inject_Z (Qceiling (q + p) + 1))%Q as D.
+      { rewrite inject_Z_plus. change (inject_Z 1) with 1%Q. lra. }
+      rewrite <- Zlt_Qlt in D. lia.
+Qed.
